@@ -5,17 +5,18 @@
    digests of its column batches) and every inner node the first four outputs of PermObs[left | right | 0000], level by
    level; the root is the last four elements and the buffer has 4*(2*rows-1) elements.  AVX512 hook records carry two
    states.  One observed pair per event is re-derived from Poseidon.Perm for a sample. *)
-EXTENDS Poseidon
+EXTENDS Poseidon, FiniteSets
 Tr == ndJsonDeserialize(IOEnv.TRACE)
 VARIABLE l
 Z4 == <<Zero8, Zero8, Zero8, Zero8>>
-RECURSIVE PairsR(_, _, _)
-PairsR(ps, i, acc) == IF i > Len(ps) THEN acc
-                      ELSE LET p == ps[i] IN
-                           PairsR(ps, i + 1, TLCEval(IF Len(p.in) = 12 THEN Append(acc, [in |-> p.in, out |-> p.out])
-                                                     ELSE acc \o <<[in |-> Slot(p.in, 0), out |-> Slot(p.out, 0)], [in |-> Slot(p.in, 1), out |-> Slot(p.out, 1)]>>))
-Lookup(pairs, st) == LET ks == {k \in 1..Len(pairs) : EqV(pairs[k].in, st)} IN IF ks = {} THEN <<>> ELSE pairs[CHOOSE k \in ks : TRUE].out
-Functional(pairs) == \A a, b \in 1..Len(pairs) : (a < b /\ EqV(pairs[a].in, pairs[b].in)) => EqV(pairs[a].out, pairs[b].out)
+(* the observed permutation map as a SET of <<canonical input state, canonical output state>> (no recursion, native
+   tuple comparison): a 24-lane AVX512 record contributes its two interleaved states, a 12-lane record one pair *)
+CanonV(st) == [i \in 1..Len(st) |-> Canon(st[i])]
+PairAt(ps, j) == LET p == ps[(j + 1) \div 2] sl == (j + 1) % 2 IN
+                 IF Len(p.in) = 12 THEN <<CanonV(p.in), CanonV(p.out)>> ELSE <<CanonV(Slot(p.in, sl)), CanonV(Slot(p.out, sl))>>
+PairSet(ps) == {PairAt(ps, j) : j \in 1..(2 * Len(ps))}
+Lookup(pairs, st) == LET key == CanonV(st) hits == {q \in pairs : q[1] = key} IN IF hits = {} THEN <<>> ELSE (CHOOSE q \in hits : TRUE)[2]
+Functional(pairs) == Cardinality({q[1] : q \in pairs}) = Cardinality(pairs)
 (* sponge digest of a sequence of words through the observed permutation map; <<>> if a needed call was not observed *)
 RECURSIVE AbsorbVia(_, _, _, _)
 AbsorbVia(pairs, xs, k, cap) ==
@@ -44,14 +45,14 @@ LevelsOk(pairs, t, pending, nextIndex) ==
        /\ LevelsOk(pairs, t, pending \div 2, nextIndex + pending)
 EqW4(a, b) == Len(a) = 4 /\ Len(b) = 4 /\ \A i \in 1..4 : a[i] = b[i]
 OkMt(e) ==
-  LET pairs == PairsR(e.perms, 1, <<>>) IN
+  LET pairs == TLCEval(PairSet(e.perms)) IN
   /\ e.input_same /\ e.slack_ok /\ e.root_forms_agree
   /\ e.nelem = 4 * (2 * e.rows - 1) /\ Len(e.tree) = e.nelem
   /\ Functional(pairs)
   /\ \A i \in 0..(e.rows - 1) : EqV(Slot4(e.tree, i), LeafVia(e, pairs, i))
   /\ LevelsOk(pairs, e.tree, e.rows, 0)
   /\ EqW4(e.root, SubSeq(e.tree, e.nelem - 3, e.nelem))
-  /\ (e.check_perm > 0 /\ e.check_perm <= Len(pairs) => EqV(pairs[e.check_perm].out, Perm(pairs[e.check_perm].in)))
+  /\ (e.check_perm > 0 /\ e.check_perm <= 2 * Len(e.perms) => LET q == PairAt(e.perms, e.check_perm) IN EqV(q[2], Perm(q[1])))
 Ok(e) == IF e.e = "mt" THEN OkMt(e) ELSE FALSE
 Init == l = 1
 Next == l <= Len(Tr) /\ Ok(Tr[l]) /\ l' = l + 1
